@@ -11,7 +11,7 @@ import numpy as np
 
 from vlib.core import Result, pmap, merge_results, run_hypothesis, quiet
 from vlib import geom
-from vlib.grids import sphere_grid, position_grid, dense
+from vlib.grids import scribble, sphere_grid, position_grid, dense
 
 _ORC = {}
 
@@ -70,21 +70,27 @@ def judge(case):
             pass
     try:
         pg = position_grid(f"{alg}_{N}", case["t_text"])
-        getters = {"volumes": lambda: np.asarray(pg.get_all_position_volumes()),
-                   "adjacency": lambda: dense(pg.get_adjacency_of_position_grid()),
-                   "borders": lambda: dense(pg.get_borders_of_position_grid()).astype(float),
-                   "distances": lambda: dense(pg.get_distances_of_position_grid()).astype(float)}
+        raw_getters = {"volumes": pg.get_all_position_volumes, "adjacency": pg.get_adjacency_of_position_grid,
+                       "borders": pg.get_borders_of_position_grid, "distances": pg.get_distances_of_position_grid}
+
+        def as_array(name, obj):
+            return np.array(obj, dtype=float) if name == "volumes" else dense(obj).astype(float) if name != "adjacency" else dense(obj).copy()
         order = case.get("order") or ["volumes", "adjacency", "borders", "distances"]
         with quiet():
-            first = {}
+            first, handed = {}, []
             for name in order:          # the getters in a generated order ...
-                first[name] = getters[name]()
-            again = {name: getters[name]() for name in reversed(order)}   # ... and all of them once more
+                obj = raw_getters[name]()
+                first[name] = as_array(name, obj)
+                handed.append(obj)
+            for obj in handed:          # ... the caller edits what it was handed in place (units, masking) ...
+                scribble(obj)
+            again = {name: as_array(name, raw_getters[name]()) for name in reversed(order)}   # ... and all of them once more
             lib_r = np.asarray(pg.get_radii())
         vol, adj, bor, dis = first["volumes"], first["adjacency"], first["borders"], first["distances"]
         for name in order:
             if first[name].shape != again[name].shape or not np.array_equal(first[name], again[name]):
-                return [f"{name} of the same position grid differ between the first and a second query "
+                return [f"{name} of the same position grid differ between the first query and a second one made after the caller "
+                        f"edited the first results in place "
                         f"(order {order}, max deviation {np.abs(first[name].astype(float) - again[name].astype(float)).max():.3g})"]
     except Exception as e:
         return [f"exception {type(e).__name__}: {e}"]
